@@ -4,7 +4,7 @@ from facts import strip_generics, callee_of
 import sym
 import writer_tab as wt
 
-CONFIGS_QUICK = ["F_all"]
+CONFIGS_QUICK = ["F_all", "F_def"]  # every configuration whose cfg-gated code the property depends on
 CONFIGS_THOROUGH = ["F_all", "F_def"]
 TECHNIQUE = 'static analysis: writer flag/indent table extraction (sync+async), output sequences of write_wrapped*, who-writes-newline, depth bookkeeping must-call rules, value sets of WriteResult predicates, effect-vs-classification rule for WriteResult on text-writing paths'
 EXPLANATION = (
